@@ -1007,6 +1007,105 @@ def np_arange(I, n, *rest, **kw):
     return SArr(z3.Lambda([k], k), z3.If(nt > 0, nt, z3.IntVal(0)), 'uint', 'ndarray')
 
 
+def _fresh_name(I, base):
+    return f"{base}!{I.run_id}_{next(I.fresh_counter)}"
+
+
+def np_cumsum(I, a, **kw):
+    """assumed: out[0] = a[0], out[j] = out[j-1] + a[j]"""
+    assumed(I, 'seqops')
+    if not isinstance(a, SArr):
+        raise Unsupported("cumsum of non-array")
+    sort = a.a.sort().range()
+    C = z3.Array(_fresh_name(I, 'cumsum'), z3.IntSort(), sort)
+    j = z3.Int(_fresh_name(I, 'j'))
+    I.assume(z3.Implies(a.n > 0, z3.Select(C, 0) == z3.Select(a.a, 0)))
+    I.assume(z3.ForAll([j], z3.Implies(z3.And(j > 0, j < a.n), z3.Select(C, j) == z3.Select(C, j - 1) + z3.Select(a.a, j))))
+    I.cumsum_records.append({'in': a, 'out': C})
+    return SArr(C, a.n, a.elem, 'ndarray')
+
+
+def np_insert(I, a, pos, val, **kw):
+    assumed(I, 'seqops')
+    if not isinstance(a, SArr) or num_is_const(pos) != 0:
+        raise Unsupported("np.insert other than at position 0")
+    v = lift(val).t
+    if a.elem == 'real':
+        v = realish(v)
+    k = z3.Int(_fresh_name(I, 'k'))
+    return SArr(z3.Lambda([k], z3.If(k == 0, v, z3.Select(a.a, k - 1))), a.n + 1, a.elem, 'ndarray')
+
+
+def np_append(I, a, x, **kw):
+    assumed(I, 'seqops')
+    if isinstance(a, SArr) and isinstance(x, (SV, int, float)):
+        v = lift(x).t
+        if a.elem == 'real':
+            v = realish(v)
+        return SArr(z3.Store(a.a, a.n, v), a.n + 1, a.elem, 'ndarray')
+    if isinstance(a, SArr) and isinstance(x, SArr):
+        return np_concatenate(I, (a, x))
+    raise Unsupported("np.append of these operands")
+
+
+def np_concatenate(I, parts, **kw):
+    assumed(I, 'seqops')
+    parts = iterate(I, parts)
+    arrs = []
+    for p in parts:
+        if isinstance(p, SArr):
+            arrs.append(p)
+        elif isinstance(p, PList):
+            # short literal list [x]
+            sort = z3.RealSort()
+            arr = z3.K(z3.IntSort(), RV(0))
+            for i, e in enumerate(p.items):
+                arr = z3.Store(arr, i, realish(lift(e).t))
+            arrs.append(SArr(arr, z3.IntVal(len(p.items)), 'real', 'ndarray'))
+        else:
+            raise Unsupported(f"concatenate of {type(p).__name__}")
+    elem = arrs[0].elem
+    k = z3.Int(_fresh_name(I, 'k'))
+    off = z3.IntVal(0)
+    body = None
+    offs = []
+    for a in arrs:
+        offs.append(off)
+        off = off + a.n
+    body = z3.Select(arrs[-1].a, k - offs[-1])
+    if any(a.elem == 'real' for a in arrs):
+        elem = 'real'
+    for a, o_ in zip(reversed(arrs[:-1]), reversed(offs[:-1])):
+        e = z3.Select(a.a, k - o_)
+        if elem == 'real':
+            e = realish(e)
+            body = realish(body)
+        body = z3.If(k < o_ + a.n, e, body)
+    return SArr(z3.Lambda([k], body), z3.simplify(off), elem, 'ndarray')
+
+
+def np_searchsorted(I, a, v, side='left', **kw):
+    """assumed contract (A_TEXT['searchsorted']); precondition: a is sorted (stated on adjacent elements)"""
+    assumed(I, 'searchsorted')
+    if not isinstance(a, SArr):
+        raise Unsupported("searchsorted on non-array")
+    v = lift(v)
+    j = z3.Int(_fresh_name(I, 'j'))
+    I.oblige('call-pre', 'np.searchsorted: array is sorted (adjacent elements non-decreasing)',
+             z3.ForAll([j], z3.Implies(z3.And(j >= 0, j + 1 < a.n), z3.Select(a.a, j) <= z3.Select(a.a, j + 1))))
+    p = I.fresh('ssorted', 'int')
+    x = v.t
+    sel_ = lambda idx: z3.Select(a.a, idx)   # noqa: E731
+    I.assume(z3.And(p >= 0, p <= a.n))
+    if side == 'right':
+        I.assume(z3.ForAll([j], z3.Implies(z3.And(j >= 0, j < p), sel_(j) <= x)))
+        I.assume(z3.ForAll([j], z3.Implies(z3.And(j >= p, j < a.n), sel_(j) > x)))
+    else:
+        I.assume(z3.ForAll([j], z3.Implies(z3.And(j >= 0, j < p), sel_(j) < x)))
+        I.assume(z3.ForAll([j], z3.Implies(z3.And(j >= p, j < a.n), sel_(j) >= x)))
+    return SV(p, guard=v.guard, kind=v.kind)
+
+
 def np_invert(I, x):
     x = lift(x)
     if x.is_bool:
@@ -1413,6 +1512,7 @@ def make_libs(I):
     I.note_write = note_write
 
     I.external_calls = []
+    I.cumsum_records = []
 
     def opaque_attr(base, attr):
         if isinstance(base.tag, tuple) and base.tag[0] == 'external':
@@ -1440,7 +1540,8 @@ def make_libs(I):
         'zeros': L(np_zeros), 'invert': L(np_invert), 'logical_not': L(np_invert),
         'logical_and': Builtin('logical_and', lambda a, b: logical_and(I, a, b)),
         'logical_or': Builtin('logical_or', lambda a, b: _mk(I, z3.Or(lift(a).t, lift(b).t), lift(a), lift(b))),
-        'empty': L(np_empty), 'arange': L(np_arange),
+        'empty': L(np_empty), 'arange': L(np_arange), 'cumsum': L(np_cumsum), 'insert': L(np_insert), 'append': L(np_append),
+        'concatenate': L(np_concatenate), 'searchsorted': L(np_searchsorted),
         'inf': SV(float('inf')), 'pi': SV(z3.Real('PI')), 'nan': Opaque('nan'),
         'float64': Opaque('float64'), 'double': Opaque('float64'), 'uintp': Opaque('uintp'), 'int64': Opaque('int64'),
         'bool_': Opaque('bool'), 'int8': Opaque('int8'),
